@@ -175,11 +175,18 @@ pub fn run(ctx: &Ctx) -> Result<(), String> {
         }
     }
 
+    // static audit of the hook-granularity assumption; unlisted sharing constructs make the
+    // free-running stress below run longer (they are not a verdict by themselves)
+    let unlisted = crate::audit::shared_state_audit();
+    for u in &unlisted {
+        eprintln!("WARNING C18: sharing construct not on the audited list (exploration at hook granularity may be blind to it): {}", u);
+    }
+    ctx.cov("unlisted_shared_state", json!(unlisted));
     // part 3: free-running conformance (sampled): real binary, closed-loop reference clients
     let mut sampled = vec![];
     {
         let nws: Vec<usize> = ctx.tier.pick(vec![4, 16], vec![1, 2, 4, 8, 16]);
-        let rounds: u64 = ctx.tier.pick(15, 60);
+        let rounds: u64 = ctx.tier.pick(15, 60) * if unlisted.is_empty() { 1 } else { 8 };
         for nw in nws {
             let port = free_port();
             let mut w = Written::base(port);
